@@ -148,7 +148,7 @@ pub fn corpus() -> Vec<(String, String)> {
 /// that defect, counted, and named in a note instead of being reported one by one.  A probe that no longer
 /// crashes gates nothing: the shape is then part of the main stream like any other.
 pub const GATES: [(&str, &str); 5] = [
-    ("F5", "interface Sp {\n  fn say(self: Self) -> string\n}\nlet s = Sp.say(1)\n"),
+    ("D57", "interface Sp {\n  fn say(self: Self) -> string\n}\nlet s = Sp.say(1)\n"),
     ("D53", "fn f() { f }\n"),
     ("D54", "implement ToString for Persn {\n  fn str(self) { \"P\" }\n}\n"),
     ("D55", "fn g(a = 1!) {}\n"),
